@@ -31,7 +31,7 @@ def _escape_bytes(data, quote):
     for byte in data:
         if byte in b'\\':
             result += b'\\\\'
-        if byte in quote:
+        elif byte in quote:
             result += b'\\' + bytes([byte])
         elif byte in b'\n':
             result += b'\\n'
